@@ -119,6 +119,8 @@ Tk(e) ==
               \o (IF e.args # <<>> THEN <<"(">> \o Commas(e.args) \o <<")">> ELSE <<>>)
       [] e.k = "getattr" -> Par(e.a, 12, {"const"}) \o <<".", e.n>>
       [] e.k = "getitem" -> Par(e.a, 12, {}) \o <<"[">> \o Tk(e.i) \o <<"]">>
+      [] e.k = "slice" -> Par(e.a, 12, {}) \o <<"[">> \o (IF "lo" \in DOMAIN e THEN Tk(e.lo) ELSE <<>>) \o <<":">>
+                             \o (IF "hi" \in DOMAIN e THEN Tk(e.hi) ELSE <<>>) \o <<"]">>
       [] e.k = "call" -> Par(e.f, 12, {"const"}) \o <<"(">> \o ArgList(e.args, e.kwnames, e.kwvals) \o <<")">>
 
 Init == i \in 1..Len(Cases) /\ done = FALSE
